@@ -284,10 +284,21 @@ func judgeExpectedHits(r *Run, j *Judged, cl []*cls, by map[int]*OResp) {
 			continue
 		}
 		// L's own storing must not have raced with another exchange's store of the same resource
+		// (the windows that matter are those in which each side processes its origin answer - from the answer
+		// to its last store operation - not the time spent waiting for the origin)
 		raced := false
 		doneL := r.lastSeqOfLineage(L.Call)
 		for _, o := range r.Calls {
-			if o != L.Call && o.Res == res && o.SeqStart < doneL && (!o.Ended || r.lastSeqOfLineage(o) > L.Call.SeqStart) {
+			if o == L.Call || o.Res != res {
+				continue
+			}
+			if !o.Ended {
+				if o.SeqStart < doneL {
+					raced = true
+				}
+				continue
+			}
+			if o.SeqEnd < doneL && r.lastSeqOfLineage(o) > L.SeqResp {
 				raced = true
 			}
 		}
@@ -409,6 +420,21 @@ func judgeExpectedHits(r *Run, j *Judged, cl []*cls, by map[int]*OResp) {
 			// served from the store: it must show the 304's header fields and the unchanged body
 			if cx.H == nil || cx.H.SID != L.SID || cx.B != body {
 				j.fail("C08", "freshen-lost", x, "fields", "after the 304 sid=%d the stored response is served with header provenance sid=%d body sid=%d (want %d / %d)", L.SID, sidOf(cx.H), sidOf(cx.B), L.SID, body.SID)
+			} else {
+				// "... served from the store with the updated fields": every end-to-end field the 304 carried
+				hop := canonHopByHop(L.Header)
+				for k, want := range L.Header {
+					if hop[k] || k == "Content-Length" || k == "Age" {
+						continue
+					}
+					if _, ok := parseDate(L.Header.Get("Date")); k == "Date" && !ok {
+						continue
+					}
+					if got := x.Header[k]; !reflect.DeepEqual(got, want) {
+						j.fail("C08", "freshen-lost", x, "fields", "after the 304 sid=%d field %s is served as %q, the 304 carried %q", L.SID, k, got, want)
+						break
+					}
+				}
 			}
 		}
 	}
